@@ -70,6 +70,9 @@ ElfCase(p) ==
              \o <<[op |-> "count", it |-> 0], [op |-> "last", it |-> 0], [op |-> "elf_sections", it |-> 2], [op |-> "count", it |-> 2],
                   [op |-> "last", it |-> 2], [op |-> "nth", it |-> 2, n |-> 1], [op |-> "next", it |-> 2, names |-> FALSE]>>
              \o <<[op |-> "elf_sections_deprecated", it |-> 1], [op |-> "next", it |-> 1, names |-> FALSE],
-                  [op |-> "dbg", what |-> "elf"]>>,
+                  [op |-> "dbg", what |-> "elf"],
+                  \* the other public route to the tag (walk, cast) - the same checks guard the same iteration
+                  [op |-> "elf_sections", it |-> 7, via |-> "cast"], [op |-> "next", it |-> 7, names |-> FALSE],
+                  [op |-> "count", it |-> 7], [op |-> "last", it |-> 7]>>,
    desc |-> [area |-> "elf"] @@ p]
 =============================================================================
